@@ -23,7 +23,7 @@ ASSUMPTIONS = [
 ]
 
 MODES = ("enter", "leave", "both")
-APIS = ("topology", "tree", "node")
+APIS = ("topology", "tree", "node", "node[-k]")  # node[-k]: the handle obtained with a negative index, tree[i - n]
 
 
 class Term:
@@ -131,6 +131,8 @@ def traverse_once(api, t, ids, pids, start, mode, as_np, hook=None, cbkind="plai
         ret = traverse((ids, pids), root=s, **kw)
     elif api == "tree":
         ret = t.traverse(root=s, **kw)
+    elif api == "node[-k]":
+        ret = t[int(start) - len(t)].traverse(**kw)
     else:
         ret = t.node(s).traverse(**kw)
     return log, ret, bad
